@@ -2,6 +2,9 @@
 """Generate MANIFEST.json from the table below (single source of truth)."""
 import json, subprocess
 CHECKS = {
+ "C06": ("exploration", "hooked-state monitor: encoder reconstruction planes (per-pass hook) vs three decoders' pre-deblocking output",
+         "A build-tag hook exports the planes the encoder used as prediction reference after the pass whose tokens are emitted (and again at return); they must equal libwebp's bypass_filtering output, x/image's unfiltered output and, for filter-off streams, webp.Decode, bit for bit, over the lossy option space incl. multi-pass/target-size and forced worker counts.",
+         "Hook H5 (internal/verifhook.FramePass) is add-only; libwebp/x-image agreement is required before a verdict (otherwise inconclusive).", "3/C06"),
  "C08": ("exploration", "history round-trip monitor for the lossless animation encoder (added canvases as oracle; AnimDecoder and an independent compositor both play the file back)",
          "Random frame histories from a mutation grammar are encoded, read back and played; the normalised picture sequences, per-picture display times, total duration, loop count and canvas size must match.",
          "Both sides are normalised by merging consecutive identical canvases; transparent pixels compare equal regardless of colour.", "3/C08"),
